@@ -528,10 +528,11 @@ Fixpoint put_cells (ctx : rctx) (st : wstate) (cells : list ccell) : outcome wst
       end
   end.
 
-(* Text::render (src/view/text.rs:171): writer over layout.apply_to(surf) with the text's wraps flag *)
-Definition text_render (ctx : rctx) (sh : shape) (data : list ccell) (lay_h lay_w : nat)
+(* Text::render (src/view/text.rs:171): writer over layout.apply_to(surf) -- the layout's position
+   (set by the parent view) and size -- with the text's wraps flag *)
+Definition text_render (ctx : rctx) (sh : shape) (data : list ccell) (pr pc lay_h lay_w : nat)
            (cells : list ccell) (wraps : bool) : outcome wstate :=
-  put_cells ctx (set_wraps (writer_new (apply_layout sh 0 0 lay_h lay_w) data) wraps) cells.
+  put_cells ctx (set_wraps (writer_new (apply_layout sh pr pc lay_h lay_w) data) wraps) cells.
 
 (* Text::layout: measured size clamped to the constraint (min <= max per axis) *)
 Definition text_layout (ctx : rctx) (cells : list ccell) (wraps : bool)
